@@ -158,6 +158,11 @@ class Frame:
             if isinstance(n, ast.Call) and isinstance(n.func, ast.Attribute) and n.func.attr in MUTATORS:
                 k = self.val(n.func.value, env)
                 self.sites.append((n.lineno, ast.unparse(n)[:80], k != 'P', f'{n.func.attr}() on {ast.unparse(n.func.value)} ({k})'))
+            if isinstance(n, ast.Call) and isinstance(n.func, ast.Name) and self.summaries.get('@mutator:' + n.func.id):
+                # a helper of the module that stores through one of its parameters: harmless on fresh objects, a store into the parse results otherwise
+                ks = [self.val(x, env) for x in n.args] + [self.val(k.value, env) for k in n.keywords]
+                self.sites.append((n.lineno, ast.unparse(n)[:80], not any(k == 'P' for k in ks),
+                                   f'{n.func.id}() stores through a parameter; arguments: {ks}'))
             if isinstance(n, ast.Call) and isinstance(n.func, ast.Name) and n.func.id in ('setattr', 'delattr') and n.args:
                 k = self.val(n.args[0], env)
                 self.sites.append((n.lineno, ast.unparse(n)[:80], k != 'P', f'{n.func.id}() on {ast.unparse(n.args[0])} ({k})'))
@@ -276,9 +281,16 @@ def frame_obligations(prop):
     recs = []
     # summaries: what each encoder / helper returns (fresh object or something reachable from its arguments); two rounds for mutual use
     summaries = {}
-    for _ in range(2):
+    for _ in range(3):
         for rel, names in ENCODERS:
             tree = parse_source(rel)
+            # helpers of the module that are not entry points (a refactoring may extract them at any time): what they return, and whether they store
+            # through a parameter (then they are checked at their call sites: harmless on fresh objects)
+            for fn in tree.body:
+                if isinstance(fn, ast.FunctionDef) and fn.name not in names and not any(fn.name in ns for _, ns in ENCODERS):
+                    fr = Frame(fn, owner=None, summaries=summaries)
+                    summaries[fn.name] = fr.ret or 'F'
+                    summaries['@mutator:' + fn.name] = any(not ok for _, _, ok, _ in fr.store_sites())
             for q in names:
                 fn = _find(tree, q.split('.'))
                 if fn is not None:
